@@ -63,9 +63,10 @@ func render(pins []*api.Pin) string {
 }
 
 type op struct {
-	unpin bool
-	pin   *api.Pin
-	at    int
+	unpin    bool
+	pin      *api.Pin
+	at       int
+	restores []int64 // per peer: snapshot restores seen before the operation was submitted
 }
 
 type model struct {
@@ -206,9 +207,17 @@ func TestRaftLog(t *testing.T) {
 				}
 			}
 		}
+		restoreCounts := func() []int64 {
+			out := make([]int64, len(peers))
+			for j, q := range peers {
+				out[j] = q.Restores()
+			}
+			return out
+		}
 		submit := func(t *rapid.T, unpin bool, p *api.Pin) {
 			l := live()
 			i := l[rapid.IntRange(0, len(l)-1).Draw(t, "at")]
+			before := restoreCounts()
 			var err error
 			if unpin {
 				err = peers[i].Cons.LogUnpin(ctx, p)
@@ -225,7 +234,7 @@ func TestRaftLog(t *testing.T) {
 			if _, had := m.cur[p.Cid.String()]; had {
 				rewrote = true
 			}
-			m.apply(op{unpin: unpin, pin: p, at: i})
+			m.apply(op{unpin: unpin, pin: p, at: i, restores: before})
 			for j := range peers {
 				opsSince[j]++
 			}
@@ -265,6 +274,7 @@ func TestRaftLog(t *testing.T) {
 				if len(l) < 2 {
 					t.Skip("needs a follower")
 				}
+				before := restoreCounts()
 				var leader, follower = -1, -1
 				for _, j := range l {
 					ld, err := peers[j].Cons.Leader(ctx)
@@ -308,7 +318,7 @@ func TestRaftLog(t *testing.T) {
 					if _, had := m.cur[p.Cid.String()]; had {
 						rewrote = true
 					}
-					m.apply(op{unpin: unpin, pin: p, at: follower})
+					m.apply(op{unpin: unpin, pin: p, at: follower, restores: before})
 					for j := range peers {
 						opsSince[j]++
 					}
@@ -460,6 +470,15 @@ func TestRaftLog(t *testing.T) {
 			}
 			for k := startedAt[i]; k < len(m.log); k++ {
 				o := m.log[k]
+				if p.Restores() > o.restores[i] {
+					// the peer restored a snapshot after this operation was
+					// submitted: the operation may have reached it inside the
+					// snapshot (a follower that lags by one entry when the
+					// leader compacts its log), and a restore is not handed
+					// to the tracker entry by entry
+					classes["hand-off-not-judged-after-restore"] = true
+					continue
+				}
 				if o.unpin {
 					if untracked[o.pin.Cid.String()] == 0 {
 						fail("peer %d applied unpin #%d of %s but never handed it to its tracker", i, k, cn(o.pin.Cid))
